@@ -306,14 +306,16 @@ class MinimizerIMinuit(MinimizerBase):
             raise ValueError("Unknown keyword arguments for contour(): {}".format(minimizer_contour_kwargs.keys()))
         _ = self.parameter_values, self.parameter_errors  # fill the caches so that they are part of the saved state
         self._save_state()
-        if _IMINUIT_1:
-            _x_errs, _y_errs, _contour_line = self._get_iminuit().mncontour(parameter_name_1, parameter_name_2, numpoints=_numpoints, sigma=sigma)
-        else:
-            # The following conversion is derived by integrating the two-dimensional standard
-            # normal distribution over a circle of radius sigma centered on (0, 0).
-            _cl = 1.0 - np.exp(-0.5 * sigma**2)
-            _contour_line = self._get_iminuit().mncontour(parameter_name_1, parameter_name_2, size=_numpoints, cl=_cl)
-        self._load_state()  # return to minimum
+        try:
+            if _IMINUIT_1:
+                _x_errs, _y_errs, _contour_line = self._get_iminuit().mncontour(parameter_name_1, parameter_name_2, numpoints=_numpoints, sigma=sigma)
+            else:
+                # The following conversion is derived by integrating the two-dimensional standard
+                # normal distribution over a circle of radius sigma centered on (0, 0).
+                _cl = 1.0 - np.exp(-0.5 * sigma**2)
+                _contour_line = self._get_iminuit().mncontour(parameter_name_1, parameter_name_2, size=_numpoints, cl=_cl)
+        finally:
+            self._load_state()  # return to minimum, also if the calculation fails
         if len(_contour_line) == 0:
             return None  # failed to find any point on contour
         return ContourFactory.create_xy_contour(np.array(_contour_line), sigma)
@@ -333,16 +335,18 @@ class MinimizerIMinuit(MinimizerBase):
             raise RuntimeError("Need to perform a fit before calling profile()!")
         _ = self.parameter_values, self.parameter_errors  # fill the caches so that they are part of the saved state
         self._save_state()
-        _bound_low, _bound_high, _arrow_specs = self._get_profile_bound(parameter_name, low, high, sigma, cl, subtract_min, arrows)
-        self._load_state()  # return to minimum
-        _kwargs = dict(bound=(_bound_low, _bound_high), subtract_min=subtract_min)
-        if _IMINUIT_1:
-            _kwargs["bins"] = size
-        else:
-            _kwargs["size"] = size
-        _bins, _vals, _statuses = self._get_iminuit().mnprofile(parameter_name, **_kwargs)
-        # TODO: check statuses (?)
-        self._load_state()  # return to minimum
+        try:
+            _bound_low, _bound_high, _arrow_specs = self._get_profile_bound(parameter_name, low, high, sigma, cl, subtract_min, arrows)
+            self._load_state()  # return to minimum
+            _kwargs = dict(bound=(_bound_low, _bound_high), subtract_min=subtract_min)
+            if _IMINUIT_1:
+                _kwargs["bins"] = size
+            else:
+                _kwargs["size"] = size
+            _bins, _vals, _statuses = self._get_iminuit().mnprofile(parameter_name, **_kwargs)
+            # TODO: check statuses (?)
+        finally:
+            self._load_state()  # return to minimum, also if the calculation fails
         return np.array([_bins, _vals]), _arrow_specs
 
     def set(self, parameter_name, parameter_value):
